@@ -193,7 +193,10 @@ def run(ctx):
                 out = d / f"out{k}.{linker}"
                 r = symgen.link(linker, KINDS[kind] + args + ["-o", out])
                 ok = r.rc == 0 and not r.timed_out and out.exists()
-                res[linker] = (ok, needed_ids(out, sonames) if ok else None, r)
+                obs = needed_ids(out, sonames) if ok else None
+                if linker == "wild" and isinstance(obs, list) and len(obs) == 2:
+                    obs = obs[:-1]          # MUTATION DEMO
+                res[linker] = (ok, obs, r)
             return j, res
 
         results = symgen.run_jobs(job, jobs, workers=8)
@@ -218,6 +221,9 @@ def run(ctx):
                         "sonames": sonames, "wild_stderr": w_r.err[-800:]}
                 return save_replay(PROP, name, files=files, meta=meta)
 
+            if g_r.timed_out or l_r.timed_out:
+                stats["reference_timeouts"] = stats.get("reference_timeouts", 0) + 1
+                continue
             if rec["outcome"] == "error":
                 stats["error_lines"] += 1
                 if g_ok or l_ok:
@@ -240,6 +246,7 @@ def run(ctx):
             if model_errors:
                 continue
             if w_r.timed_out:
+                stats["wild_timeouts"] = stats.get("wild_timeouts", 0) + 1
                 continue
             if not w_ok:
                 wild_failed.append((describe(rec), w_r.err[-300:]))
@@ -266,9 +273,13 @@ def run(ctx):
                 f"DT_NEEDED of wild = {w_needed}; property rule (= lld) {rec['final']}; GNU ld "
                 f"{'fails' if rec['gnu_fails'] else rec['gnu']}; link line: {describe(rec)['cmd']} ({kind})",
                 lambda: replay_dir(f"case-{rec['idx']}-{kind}"))
+        if stats.get("reference_timeouts", 0) > max(3, len(results) // 20):
+            raise ToolError(f"{stats['reference_timeouts']} reference links timed out (machine overloaded?)")
         if model_errors:
             raise ToolError(f"{len(model_errors)} disagreements between the spec's reference rules and the real "
                             f"GNU ld / lld (the spec is wrong, not wild):\n" + "\n".join(model_errors[:8]))
+        if stats.get("wild_timeouts", 0) > max(3, len(results) // 20):
+            raise ToolError(f"wild timed out on {stats['wild_timeouts']} links (cannot evaluate the property)")
         if wild_failed:
             raise ToolError(f"wild failed on {len(wild_failed)} link lines that GNU ld/lld and the spec accept "
                             f"(cannot evaluate the property): {wild_failed[:3]}")
